@@ -60,8 +60,8 @@ def testdata_cases():
 
 def run(ctx):
     rng = ctx.rng
-    nprog = ctx.budget(220, 5000)
-    ncorr = ctx.budget(60, 1500)     # programs whose references are also run through the Coq model
+    nprog = ctx.budget(220, 3000)
+    ncorr = ctx.budget(60, 400)     # programs whose references are also run through the Coq model
     ctx.rule = ("hand-written programs with shadowing names + every compilable .proto of the repository's internal/testdata (each against the root directory it is written for) + %d generated "
                 "multi-file programs (proto2/proto3/editions, imports incl. public, type references spelled absolute / fully qualified / relative to an enclosing "
                 "message or package prefix, maps, groups, extensions, custom options with message values, services, feature overrides); each compiled and its "
